@@ -177,6 +177,32 @@ theorem c21_routing_sites : routingHashSlotSites =
      ("RouteAuthoritiesPartial", "HashSlotForKey(key,t.HashSlotCount)"), ("BuildTable", "r.From")] := by
   decide
 
+/-- the chat-lifecycle bench's private copy of the mapping (`lifecycleHashSlotForKey`, used to validate
+    physical hash-slot ownership of cohort candidates) is the same spec function, for every key and count -/
+theorem c21_lifecycle_agree (std : List (BitVec 8) → BitVec 32) (hstd : ∀ s, std s = specCrc32 s)
+    (key : List (BitVec 8)) (count : BitVec 16) :
+    lifecycleHashSlot (crcOf std lifecycleHashSlotCrc key) count = specHashSlot key count := by
+  simp [lifecycleHashSlot, lifecycleHashSlotCrc, crcOf, specHashSlot, hstd]
+
+/-- **completeness of the site table**: the functions of the whole repository (non-test Go files) that reduce
+    an IEEE CRC-32 with `%` are exactly the four translated mappings proved equal to the spec above
+    (`c21_all_agree`, `c21_lifecycle_agree`); a fifth, untranslated mapping function changes this list -/
+theorem c21_crc_mod_sites : crcModFuncs =
+    [("internal/bench/chatlifecycle/lifecycle_proof.go", "lifecycleHashSlotForKey"),
+     ("internal/bench/workload/group.go", "physicalHashSlotForKey"),
+     ("pkg/cluster/routing/router.go", "HashSlotForKey"),
+     ("pkg/hashslot/hashslottable.go", "HashSlotForKey")] := by
+  decide
+
+/-- the slot proxy's `hashSlotForKey(cluster, key)` computes nothing itself: it returns
+    `cluster.(hashSlotKeyer).HashSlotForKey(key)` (= Node.HashSlotForKey = the router's mapping,
+    `c21_node_delegates`) or 0 when the cluster has no such method (extracted fact) -/
+theorem c21_proxy_delegates : proxyDelegatesToKeyer = true := by decide
+
+-- non-vacuity of the new site: the lifecycle mapping is not constant
+example : lifecycleHashSlot 0x0000012C#32 256#16 = 0x2C#16 := by decide
+example : crcModFuncs.length = 4 := by decide
+
 -- non-vacuity: "123456789" has the well-known check value 0xCBF43926
 set_option maxRecDepth 100000 in
 example : specCrc32 [0x31#8,0x32#8,0x33#8,0x34#8,0x35#8,0x36#8,0x37#8,0x38#8,0x39#8] = 0xCBF43926#32 := by decide
